@@ -133,3 +133,24 @@ Theorem C05_translated_from_wire_only_table :
   forall bs t, gen_tag_from_wire bs = Ok t -> bs = tag_wire t.
 Proof. exact gen_tag_from_wire_only_table. Qed.
 Print Assumptions C05_translated_from_wire_only_table.
+
+(* RtMessage::add_field AS TRANSLATED with the message kept on both outcomes: a refused call (tag not above
+   the last one) leaves tags and values exactly as they were, an accepted one appends exactly one of each —
+   so a caller that goes on after a refusal still holds a message that round-trips *)
+Require Import RV.Proofs.CodeMsgState.
+Theorem C05_translated_add_field_state :
+  forall tags values t v,
+  gen_add_field_st tags values t v
+  = Ok (match last_opt tags with
+        | Some l => if tag_le t l then (Err (TagNotStrictlyIncreasing t), (tags, values))
+                    else (Ok tt, ((tags ++ [t])%list, (values ++ [v])%list))
+        | None => (Ok tt, ((tags ++ [t])%list, (values ++ [v])%list))
+        end).
+Proof. exact gen_add_field_state. Qed.
+Print Assumptions C05_translated_add_field_state.
+
+Theorem C05_translated_refused_add_field_changes_nothing :
+  forall tags values t v e st,
+  gen_add_field_st tags values t v = Ok (Err e, st) -> st = (tags, values).
+Proof. exact gen_add_field_refused_changes_nothing. Qed.
+Print Assumptions C05_translated_refused_add_field_changes_nothing.
